@@ -486,7 +486,8 @@ Example ex_input_written :
             /\ f_chcount g = Some 1.
 Proof. eexists. split; [reflexivity|]. vm_compute. repeat split. Qed.
 
-(* before dclab commit ea8e52b: a dataset
+(* HISTORICAL (the code no longer exists, tied to nothing): before dclab
+   commit ea8e52b a dataset
    whose alphabetically first feature is "trace" gets the number of traces as
    event count and is then reported with violations *)
 Definition ex_trace_first : file :=
@@ -504,19 +505,6 @@ Proof.
   vm_compute. reflexivity.
 Qed.
 
-(* ds.export.hdf5 with a subset of the fluorescence features writes the
-   source's (completed) metadata through the writer; "channel count" is only
-   added when absent, so the exported file contradicts itself *)
-Definition drop_feat (r : Z) (h : file) : file :=
-  mkFile (f_evcount h)
-         (filter (fun ft => negb (ft_rank ft =? r)) (f_feats h))
-         (f_trace_rank h) (f_traces h) (f_unknown h) (f_extlink h)
-         (f_roi_x h) (f_roi_y h) (f_frame_rate h) (f_pixel_size h)
-         (f_channel_width h) (f_flow_rate h) (f_plain h) (f_imaging_other h)
-         (f_chcount h) (f_chnames h) (f_lasercount h) (f_lambdas h)
-         (f_powers h) (f_spe h) (f_polys h) (f_zmd h) (f_basins h)
-         (f_basin_events h).
-
 Definition ex_two_channels : file :=
   mkFile None
          [mkFeat 0 (Plain 3); mkFeat 1 (FlMax 1 3); mkFeat 2 (FlMax 2 3)]
@@ -525,18 +513,6 @@ Definition ex_two_channels : file :=
          [0; 2; 3; 4; 5; 6; 9; 10; 14; 16; 17; 19; 21; 22; 24; 25; 26] false
          None [1; 2] (Some 0) [] [] (Some 12) [] false [] None.
 
-Lemma export_subset_refuted :
-  exists f n g r g',
-    complete_input f n = true /\ rectify f = Some g
-    /\ violations g = Some []
-    /\ rectify (drop_feat r g) = Some g'
-    /\ violations g' = Some [ChannelCount].
-Proof.
-  exists ex_two_channels, 3. eexists. exists 1. eexists.
-  split; [vm_compute; reflexivity|]. split; [reflexivity|].
-  split; [vm_compute; reflexivity|]. split; [reflexivity|].
-  vm_compute. reflexivity.
-Qed.
 
 (* ------------------------------------------------------------------ *)
 (* exit status of dclab-verify-dataset                                 *)
@@ -588,18 +564,3 @@ Proof.
   intros HC HR. apply verify_exit_zero; [lia|]. split; [|reflexivity].
   eapply writer_output_clean; eassumption.
 Qed.
-
-(* export of a subset: the writer applied to the remaining features and the
-   source's completed metadata.  Clean whenever that input is still complete
-   and consistent (guard); the guard fails for [ex_two_channels] without
-   fl1_max (export_subset_refuted) and holds e.g. without the scalar *)
-Lemma export_subset_clean_partial g r n g' :
-  complete_input (drop_feat r g) n = true ->
-  rectify (drop_feat r g) = Some g' -> violations g' = Some [].
-Proof. apply writer_output_clean. Qed.
-
-Example export_subset_guard :
-  exists g, rectify ex_two_channels = Some g
-            /\ complete_input (drop_feat 0 g) 3 = true
-            /\ complete_input (drop_feat 1 g) 3 = false.
-Proof. eexists. split; [reflexivity|]. split; vm_compute; reflexivity. Qed.
